@@ -222,6 +222,7 @@ fn main() {
         "C10" => dispatch(&props::c10::C10, &a),
         "C16" => dispatch(&props::c16::C16, &a),
         "C17" => dispatch(&props::c17::C17, &a),
+        "C18" => dispatch(&props::c18::C18, &a),
         other => harness_error(&format!("property {} has no check in this simulator", other)),
     };
     std::process::exit(code);
